@@ -38,6 +38,9 @@ type config struct {
 	width  int    // container width px
 	ow     string // overflow-wrap ("" = not set)
 	wb     string // word-break ("" = not set)
+	pageLines int  // >0: the page is only this many lines high (the paragraph is split across pages)
+	hasTop bool    // the model is placed at top (several blocks in one document)
+	top    float64
 }
 
 func (c config) wrap() bool { return c.ws == "normal" || c.ws == "pre-line" || c.ws == "pre-wrap" }
@@ -72,11 +75,18 @@ func (c config) String() string {
 	if c.wb != "" {
 		s += " wb=" + c.wb
 	}
+	if c.pageLines > 0 {
+		s += fmt.Sprintf(" pageLines=%d", c.pageLines)
+	}
 	return s
 }
 
 // geo: (geo g s wrap avail indent align lh asc desc x0 y0); Ahem: ascent 0.8em, descent 0.2em
 func (c config) geo() sx.X {
+	if c.hasTop {
+		return sx.L(sx.A("geo"), sx.I(c.fs), sx.I(c.fs), sx.B(c.wrap()), sx.I(c.width), sx.I(c.indent), sx.A(c.align),
+			sx.I(c.lineHeight()), sx.R(float64(c.fs)*4/5), sx.R(float64(c.fs)/5), sx.I(padX), sx.R(c.top))
+	}
 	return sx.L(sx.A("geo"), sx.I(c.fs), sx.I(c.fs), sx.B(c.wrap()), sx.I(c.width), sx.I(c.indent), sx.A(c.align),
 		sx.I(c.lineHeight()), sx.R(float64(c.fs)*4/5), sx.R(float64(c.fs)/5), sx.I(padX), sx.I(padY))
 }
@@ -87,6 +97,11 @@ const (
 )
 
 func document(p para, c config) string {
+	if c.pageLines > 0 {
+		// a page only pageLines lines high: the paragraph is fragmented
+		return fmt.Sprintf(`<style>@page{size:6000px %dpx;margin:0}html,body{margin:0;padding:0}`, padY+c.pageLines*c.lineHeight()) +
+			`div{padding:` + fmt.Sprint(padY) + `px 0 0 ` + fmt.Sprint(padX) + `px}p{margin:0;orphans:1;widows:1;` + c.css() + `}</style><div><p>` + p.html() + `</p></div>`
+	}
 	return `<style>@page{size:6000px 60000px;margin:0}html,body{margin:0;padding:0}` +
 		`div{padding:` + fmt.Sprint(padY) + `px 0 0 ` + fmt.Sprint(padX) + `px}p{margin:0;` + c.css() + `}</style><div><p>` + p.html() + `</p></div>`
 }
@@ -185,16 +200,10 @@ func collect(b bo.Box, g float64, l *line) {
 	}
 }
 
-func extract(pages []*bo.PageBox, g float64) ([]line, error) {
-	var ps []bo.Box
-	for _, p := range pages {
-		findP(p, &ps)
-	}
-	if len(ps) != 1 {
-		return nil, fmt.Errorf("expected one <p> fragment, got %d (pages %d)", len(ps), len(pages))
-	}
+// linesOf extracts the line boxes of one block fragment.
+func linesOf(pb bo.Box, g float64) ([]line, error) {
 	var out []line
-	for _, c := range ps[0].Box().Children {
+	for _, c := range pb.Box().Children {
 		lb, ok := c.(*bo.LineBox)
 		if !ok {
 			return nil, fmt.Errorf("unexpected child %s of <p>", c.Type())
@@ -209,6 +218,49 @@ func extract(pages []*bo.PageBox, g float64) ([]line, error) {
 		out = append(out, l)
 	}
 	return out, nil
+}
+
+// extract returns the lines of the paragraph.  multi: the paragraph is fragmented over several pages;
+// the fragments' lines are concatenated, each fragment must stack its own lines exactly, and y is
+// rewritten as if the paragraph had not been fragmented (so that it compares with the model).
+func extract(pages []*bo.PageBox, g float64, multi bool) ([]line, int, error) {
+	var ps []bo.Box
+	for _, p := range pages {
+		findP(p, &ps)
+	}
+	if len(ps) != 1 && !multi || len(ps) == 0 {
+		return nil, 0, fmt.Errorf("expected one <p> fragment, got %d (pages %d)", len(ps), len(pages))
+	}
+	var out []line
+	y := float64(padY)
+	for _, pb := range ps {
+		ls, err := linesOf(pb, g)
+		if err != nil {
+			return nil, 0, err
+		}
+		for i := range ls {
+			if multi {
+				if i > 0 && ls[i].y != ls[i-1].y+ls[i-1].h {
+					return nil, 0, fmt.Errorf("lines of a page fragment do not stack")
+				}
+			}
+		}
+		if multi {
+			dy := 0.0
+			if len(ls) > 0 {
+				dy = y - ls[0].y
+			}
+			for i := range ls {
+				ls[i].y += dy
+				for j := range ls[i].leaves {
+					ls[i].leaves[j].y += dy
+				}
+				y = ls[i].y + ls[i].h
+			}
+		}
+		out = append(out, ls...)
+	}
+	return out, len(ps), nil
 }
 
 func ratF(x sx.X) (float64, bool) {
@@ -368,9 +420,12 @@ func (rn *runner) check(p para, c config, seed uint64) error {
 		if lerr != nil {
 			return lerr
 		}
-		impl, err := extract(pages, float64(c.fs))
+		impl, nfrag, err := extract(pages, float64(c.fs), c.pageLines > 0)
 		if err != nil {
 			return fmt.Errorf("%v on %s", err, src)
+		}
+		if c.pageLines > 0 {
+			rn.out.Hit(fmt.Sprintf("fragments:%d", min(nfrag, 6)))
 		}
 		rn.out.Count(e.name+"|"+p.key()+"|"+c.String(), nontrivial)
 		rn.out.Hit("engine:" + e.name)
@@ -408,7 +463,15 @@ func (rn *runner) check(p para, c config, seed uint64) error {
 				return fmt.Errorf("judge accepts lines that differ from greedy (uniqueness theorem contradicted?) on %s", src)
 			}
 			key := jclause
-			if p.spaceBeforeBr() {
+			if p.leadingDeco() {
+				key = "leading-empty-inline-takes-indent" // KF11-16
+			} else if e.name == "pango" && p.hasDeco() && jclause == "greedy" && earlyBreakBeforeDeco(p, impl, spec) {
+				key = "space-before-empty-inline-counted" // KF11-18
+			} else if e.name == "pango" && p.hasDeco() && jclause == "greedy" && endEdgeAfterDeco(p, impl, spec) {
+				key = "end-edge-after-empty-inline" // KF11-19
+			} else if p.hasDeco() && jclause != "greedy" {
+				key = "space-before-empty-inline" // KF11-17 (same root as KF11-1)
+			} else if p.spaceBeforeBr() {
 				key = "space-before-br" // KF11-1
 			} else if jclause == "greedy" && leftEdgeNear(p, impl, spec) {
 				key = "span-left-edge" // KF11-2
@@ -416,7 +479,7 @@ func (rn *runner) check(p para, c config, seed uint64) error {
 				key = "atom-inside-span" // KF11-6
 			} else if p.spaceAtEdge() {
 				key = "space-inside-span-edge" // KF11-5
-			} else if e.name == "gotext" && p.spaceEndsTextNode() {
+			} else if e.name == "gotext" && (p.spaceEndsTextNode() || p.hasDeco()) {
 				key = "gotext-space-at-end-of-text-node" // KF11-4
 			} else if e.name == "gotext" && p.endsWithSpace() && jclause == "greedy" && strings.Contains(reason, "wider than the available width") {
 				key = "gotext-overflow-unchecked-before-trailing-space" // KF11-9
@@ -446,6 +509,69 @@ func (rn *runner) check(p para, c config, seed uint64) error {
 		if clause != "" {
 			rn.out.Add(res.Finding{Kind: "corr", Op: "corr:c11:" + clause, Input: input, Impl: linesString(impl), Model: linesString(model),
 				Reason: e.name + ": " + why, Key: clause, Seed: seed})
+		}
+	}
+	return nil
+}
+
+// checkBlocks lays out several paragraphs of ONE document, all with the same font but each with its own
+// line-height (and width), and compares every block with the model placed at the block's own top.
+func (rn *runner) checkBlocks(ps []para, cs []config, seed uint64) error {
+	var b strings.Builder
+	b.WriteString(`<style>@page{size:6000px 60000px;margin:0}html,body{margin:0;padding:0}div{padding:` + fmt.Sprint(padY) + `px 0 0 ` + fmt.Sprint(padX) + `px}p{margin:0}</style><div>`)
+	var keys []string
+	for i, p := range ps {
+		b.WriteString(`<p style="` + cs[i].css() + `">` + p.html() + `</p>`)
+		keys = append(keys, p.key()+" ["+cs[i].String()+"]")
+	}
+	b.WriteString(`</div>`)
+	src := b.String()
+	input := map[string]interface{}{"html": src, "paragraph": strings.Join(keys, " || "), "config": "blocks"}
+	for ei, e := range rn.engs {
+		rn.n++
+		var pages []*bo.PageBox
+		var lerr error
+		o := render.Guard(20*time.Second, func() { pages, _, lerr = render.LayoutOnly(src, rn.fonts[ei], render.Opts{}) })
+		if o.Timeout {
+			o = render.Guard(120*time.Second, func() { pages, _, lerr = render.LayoutOnly(src, rn.fonts[ei], render.Opts{}) })
+		}
+		if !o.OK() {
+			rn.out.Hit("skipped:crash:" + o.Site)
+			rn.out.Notes = appendNote(rn.out.Notes, fmt.Sprintf("C01 crash/timeout (%s) site=%s panic=%s on %s", e.name, o.Site, o.Panic, src))
+			continue
+		}
+		if lerr != nil {
+			return lerr
+		}
+		var boxes []bo.Box
+		for _, pg := range pages {
+			findP(pg, &boxes)
+		}
+		if len(boxes) != len(ps) {
+			return fmt.Errorf("expected %d <p>, got %d on %s", len(ps), len(boxes), src)
+		}
+		rn.out.Count("B|"+e.name+"|"+input["paragraph"].(string), true)
+		rn.out.Hit("blocks:" + e.name)
+		for i, pb := range boxes {
+			impl, err := linesOf(pb, float64(cs[i].fs))
+			if err != nil {
+				return err
+			}
+			c := cs[i]
+			c.hasTop, c.top = true, float64(pb.Box().PositionY)
+			ans, err := rn.m.Ask(sx.L(sx.A("layout"), c.geo(), ps[i].sx()))
+			if err != nil {
+				return err
+			}
+			model, err := parseModel(ans)
+			if err != nil {
+				return err
+			}
+			if clause, why := diff(impl, model, 0); clause != "" {
+				rn.out.Add(res.Finding{Kind: "judge", Op: "judge:c11:block-" + clause, Input: input, Impl: linesString(impl), Model: linesString(model),
+					Reason: fmt.Sprintf("%s: block %d of %d (line-height %d): %s", e.name, i, len(ps), c.lineHeight(), why), Key: "block-" + clause, Seed: seed})
+				break
+			}
 		}
 	}
 	return nil
@@ -529,6 +655,70 @@ func unjustifiedBeforeGluedBr(p para, impl, spec []line) bool {
 		return false
 	}
 	return false
+}
+
+// earlyBreakBeforeDeco: the implementation's first differing line is SHORTER than the greedy one, and the
+// greedy line ends just before a space that is followed by an inline element emptied by collapsing (the
+// code wants room for that space because the empty box, not the text, ends the line).
+func earlyBreakBeforeDeco(p para, impl, spec []line) bool {
+	a, i := 0, 0
+	for i < len(impl) && i < len(spec) && impl[i].cnt == spec[i].cnt {
+		a += impl[i].cnt
+		i++
+	}
+	if i >= len(impl) || i >= len(spec) || impl[i].cnt >= spec[i].cnt {
+		return false
+	}
+	end := a + spec[i].cnt
+	n := 0
+	for _, t := range p.toks {
+		if n == end && t.k == tSpace {
+			return strings.Contains(t.html, "<")
+		}
+		if n == end && (t.k == tWord || t.k == tAtom) {
+			return false
+		}
+		switch t.k {
+		case tWord:
+			n += t.n
+		case tAtom:
+			n++
+		}
+	}
+	return false
+}
+
+// endEdgeAfterDeco: the implementation's first differing line is LONGER than the greedy one; the greedy line
+// ends at a space followed by an emptied inline element, and the implementation's line ends just before the
+// non-zero end edge of an inline box (the edge is what does not fit; the break opportunity at the space lies
+// between two boxes inside the inline box and is not found when its last child is laid out again).
+func endEdgeAfterDeco(p para, impl, spec []line) bool {
+	a, i := 0, 0
+	for i < len(impl) && i < len(spec) && impl[i].cnt == spec[i].cnt {
+		a += impl[i].cnt
+		i++
+	}
+	if i >= len(impl) || i >= len(spec) || impl[i].cnt <= spec[i].cnt {
+		return false
+	}
+	brk, end := a+spec[i].cnt, a+impl[i].cnt
+	n := 0
+	deco, edge := false, false
+	for _, t := range p.toks {
+		if n == brk && t.k == tSpace && strings.Contains(t.html, "<") {
+			deco = true
+		}
+		if n == end && t.k == tClose && t.n > 0 {
+			edge = true
+		}
+		switch t.k {
+		case tWord:
+			n += t.n
+		case tAtom:
+			n++
+		}
+	}
+	return deco && edge
 }
 
 // lastLineOnly: the two layouts differ on their last line only
@@ -645,6 +835,58 @@ func Run(tier string, seed uint64, modelPath, repo string, out *res.Result) erro
 			if err := rn.sweep(cr, p, c, cseed, minK); err != nil {
 				return err
 			}
+		}
+	}
+	// structured stages (exact comparison with the model)
+	sbudget := 3000
+	if tier == "thorough" {
+		sbudget = 45000
+	}
+	// (a) a paragraph with text-indent fragmented over pages only 1..3 lines high: the indent is on the
+	//     first line of the paragraph only, not on the first line of every fragment
+	for target := rn.n + sbudget/3; rn.n < target; {
+		cr := r.Sub()
+		cseed := cr.Seed()
+		c := randConfig(cr, true)
+		c.ws = "normal"
+		c.indent = rng.Pick(cr, c.fs, 2*c.fs, -c.fs, 7, c.fs/2, 3*c.fs)
+		c.pageLines = cr.Range(1, 3)
+		p := genPara(cr, genOpts{maxLeaves: 10, maxWord: 6, spans: cr.Bool(), maxDepth: 1}, c.fs)
+		out.Hit("stage:pages+indent")
+		if err := rn.sweep(cr, p, c, cseed, p.longest()+3); err != nil {
+			return err
+		}
+	}
+	// (b) several blocks, same font, different line-heights, in one document
+	for target := rn.n + sbudget/3; rn.n < target; {
+		cr := r.Sub()
+		cseed := cr.Seed()
+		fs := rng.Pick(cr, 20, 10, 40)
+		n := cr.Range(2, 4)
+		var ps []para
+		var cs []config
+		for i := 0; i < n; i++ {
+			c := config{fs: fs, align: rng.Pick(cr, "left", "right", "center"), ws: "normal"}
+			c.lh = rng.Pick(cr, 0, fs, fs+4, 2*fs, fs-4, fs+5, 3*fs)
+			p := genPara(cr, genOpts{maxLeaves: 5, maxWord: 6}, fs)
+			c.width = cr.Range(p.longest(), p.total(fs)/fs+1) * fs
+			ps, cs = append(ps, p), append(cs, c)
+		}
+		out.Hit("stage:blocks-line-height")
+		if err := rn.checkBlocks(ps, cs, cseed); err != nil {
+			return err
+		}
+	}
+	// (c) white space that collapsing removes across inline element boundaries: `a <i> </i>b`
+	for target := rn.n + sbudget/3; rn.n < target; {
+		cr := r.Sub()
+		cseed := cr.Seed()
+		c := randConfig(cr, true)
+		c.ws = "normal"
+		p := genPara(cr, genOpts{maxLeaves: 7, maxWord: 6, spans: cr.Bool(), maxDepth: 1, collapseDeco: true}, c.fs)
+		out.Hit("stage:collapsed-space-in-inline")
+		if err := rn.sweep(cr, p, c, cseed, 0); err != nil {
+			return err
 		}
 	}
 	// judge-only stages: wider generator, the implementation's own numbers against J0..J3 (judge.go)
